@@ -251,26 +251,55 @@ def svd(A, full_matrices=True, compute_uv=True, **k):
         else:
             zero_cols.append(i)
     if zero_cols or (full_matrices and n > r):
-        # complete with a left frame of A A^T
+        need_cols = list(zero_cols) + ([None] * (n - r) if full_matrices and n > r else [])
+        # complete with a left frame of A A^T when the library has one ...
         QL, dl = _diagonalising_frame(A @ A.T)
-        if QL is None:
-            STATS["out_of_family"] += 1
-            raise Unsupported("svd: cannot complete left singular vectors (out of family)")
-        # columns of QL whose eigenvalue is identically zero or zero on this path
-        free = []
-        for j in range(n):
-            z = dl[j] == 0
-            if (bool(z) if isinstance(z, Formula) else z):
-                free.append(j)
-        need = len(zero_cols) + (n - r if full_matrices else 0)
-        if len(free) < need:
-            raise Unsupported("svd: not enough null left vectors")
-        it = iter(free)
-        for i in zero_cols:
-            U[:, i] = QL[:, next(it)]
-        if full_matrices and n > r:
-            extra = [QL[:, next(it)] for _ in range(n - r)]
-            U = arrays._rewrap(_np.concatenate)([U] + [e.reshape(n, 1) for e in extra], axis=1)
+        done = False
+        if QL is not None:
+            free = []
+            for j in range(n):
+                z = dl[j] == 0
+                if (bool(z) if isinstance(z, Formula) else z):
+                    free.append(j)
+            if len(free) >= len(need_cols):
+                it = iter(free)
+                extra = []
+                for i in need_cols:
+                    if i is None:
+                        extra.append(QL[:, next(it)])
+                    else:
+                        U[:, i] = QL[:, next(it)]
+                if extra:
+                    U = arrays._rewrap(_np.concatenate)([U] + [e.reshape(n, 1) for e in extra], axis=1)
+                done = True
+        if not done:
+            # ... otherwise by Gram-Schmidt against standard basis vectors: any orthonormal completion is a legal output
+            have = [i for i in range(r) if i not in zero_cols]
+            basis = [U[:, i] for i in have]
+            extra = []
+            k_e = 0
+            for i in need_cols:
+                while True:
+                    if k_e >= n:
+                        raise Unsupported("svd: cannot complete left singular vectors")
+                    e = arrays.zeros(n)
+                    e[k_e] = ctx().const(1)
+                    k_e += 1
+                    v = e
+                    for b in basis:
+                        v = v - b * (b * e).sum()
+                    nrm2 = (v * v).sum()
+                    nzq = nrm2 != 0
+                    if bool(nzq) if isinstance(nzq, Formula) else nzq:
+                        u = v / core.ssqrt(nrm2)
+                        break
+                basis.append(u)
+                if i is None:
+                    extra.append(u)
+                else:
+                    U[:, i] = u
+            if extra:
+                U = arrays._rewrap(_np.concatenate)([U] + [e.reshape(n, 1) for e in extra], axis=1)
     return U, s, V.T
 
 
